@@ -236,6 +236,67 @@ def pmap(fn: Callable[[Any], Any], items: Iterable[Any], nproc: int = NPROC, chu
     return res
 
 
+def pmap_tagged(fn: Callable[[Any], Any], items: Iterable[Any], **kw: Any) -> list[Any]:
+    """pmap, and every violation dict found in a result gets the (function, argument) needed to
+    re-execute exactly that case (see replay_case)"""
+    items = list(items)
+    results = pmap(fn, items, **kw)
+
+    def walk(x: Any, t: Any) -> None:
+        if isinstance(x, dict):
+            if "kind" in x and "sig" in x and "_replay" not in x:
+                tag(x, fn.__module__, fn.__name__, t)
+            for v in list(x.values()):
+                if isinstance(v, (dict, list, tuple)):
+                    walk(v, t)
+        elif isinstance(x, (list, tuple)):
+            for v in x:
+                walk(v, t)
+
+    for t, r in zip(items, results):
+        walk(r, t)
+    return results
+
+
+def tag(case: dict, module: str, fn: str, arg: Any) -> dict:
+    """attach what is needed to re-execute exactly this case without the explorer"""
+    case["_replay"] = {"module": module, "fn": fn, "arg_repr": repr(arg)}
+    return case
+
+
+def replay_case(case: dict) -> dict:
+    """Re-executes one stored case: calls the recorded worker function on the recorded argument
+    and reports whether a violation of the same kind shows up again."""
+    import importlib
+
+    bind_fandango()
+    rp = case.get("_replay")
+    if not rp:
+        return {"violates": False, "error": "case carries no replay information"}
+    ns: dict = {}
+    for m in ("mc.refgrammar", "mc.refconstraint"):
+        ns.update(vars(importlib.import_module(m)))
+    arg = eval(rp["arg_repr"], ns)
+    mod = importlib.import_module(rp["module"])
+    res = getattr(mod, rp["fn"])(arg)
+    found = []
+
+    def collect(x: Any) -> None:
+        if isinstance(x, dict):
+            if "kind" in x and "sig" in x:
+                found.append(x)
+            for v in x.values():
+                collect(v)
+        elif isinstance(x, (list, tuple)):
+            for v in x:
+                collect(v)
+
+    collect(res)
+    same = [v for v in found if v.get("kind") == case.get("kind")]
+    return {"violates": bool(same), "violations_of_same_kind": len(same), "violations_total": len(found),
+            "example": {k: v for k, v in (same[0] if same else {}).items() if k != "_replay"}}
+
+
 def rotate(items: list, seed: int) -> list:
     """VERIF_SEED only rotates the order in which an enumerated space is visited."""
     if not items:
